@@ -52,12 +52,12 @@ func newBuf(c *Case) gopacket.SerializeBuffer {
 }
 
 type region struct {
-	s      []byte
-	a, b   int // virtual coordinates in the model
-	epoch  int
-	front  bool
-	opIdx  int
-	moved  bool
+	s     []byte
+	a, b  int // virtual coordinates in the model
+	epoch int
+	front bool
+	opIdx int
+	moved bool
 }
 
 type model struct {
@@ -69,7 +69,13 @@ type model struct {
 	pat     byte
 }
 
-func (m *model) nextPat() byte { m.pat++; if m.pat == 0 { m.pat = 1 }; return m.pat }
+func (m *model) nextPat() byte {
+	m.pat++
+	if m.pat == 0 {
+		m.pat = 1
+	}
+	return m.pat
+}
 
 func aliasOffset(s, B []byte) (int, bool) {
 	if len(s) == 0 || len(B) == 0 {
